@@ -148,7 +148,7 @@ fn dt_rtl(r: &Req) -> String {
         let res = catch_unwind(AssertUnwindSafe(|| {
             let x = DateTime::<U>::new(v);
             let text = x.strftime(fmt.as_deref());
-            DateTime::<U>::parse(&text, None)
+            if r.s("ep") == "fs" { text.parse::<DateTime<U>>() } else { DateTime::<U>::parse(&text, None) }
         }));
         match res {
             Ok(Ok(x)) => format!("V:{}", x.0),
@@ -537,6 +537,19 @@ fn dt_stream(tier: &str, rng: &mut Rng) -> Vec<String> {
     let thorough = tier == "thorough";
     let mut out = vec![];
     // round trips: every unit x default format and the eleven listed formats x value grid
+    // the same instant (whole seconds) at the four units one after the other, formatted with a listed
+    // rule (the same text at every unit) and read back through `FromStr`
+    for secs in [0i64, 1, -1, 59, 86_399, 86_400, -86_401, 951_782_400, 1_577_836_800, 1_709_210_096, 4_102_444_800, -2_208_988_800] {
+        for i in 0..TIME_RULE_VEC.len().min(3) {
+            for (u, per) in [("s", 1i64), ("ms", 1_000), ("us", 1_000_000), ("ns", 1_000_000_000)] {
+                let v = secs * per;
+                let fmt = TIME_RULE_VEC[i];
+                if let Some(text) = chrono_format(u, v, fmt) {
+                    out.push(format!("dt_rtl u={} v={} f={} ep=fs s={} {}", u, v, i, enc(&text), chrono_fields(&text, None)));
+                }
+            }
+        }
+    }
     for u in UNITS {
         for v in rt_values(u, tier, rng) {
             rt_line(&mut out, u, v, None);
@@ -672,7 +685,7 @@ pub fn rule(tier: &str) -> String {
          (multi-byte characters at every offset); then {} grammar-based random strings of 0..=6 terms (widths up to 20 digits) with random mutations. Each string is run twice: exact outcome \
          (value / error kind / panic) vs the Lean model and vs the from-scratch sum when well-formed, and totality (T/P). \
          DateTime: format->parse round trip for units s/ms/us/ns x default format and the 11 listed formats x a grid of instants (epoch, leap days, 1000-01-01..9999-12-31, edges of the \
-         nanosecond range, years 10000/0/-1, chrono's MIN_UTC/MAX_UTC) + random instants (80% in years 1000..=9999, 20% anywhere in chrono's range); formats that write %Y directly against %m are only required to round-trip for years 0..=9999; parsing of texts in every listed format around each unit's range limits, \
+         nanosecond range, years 10000/0/-1, chrono's MIN_UTC/MAX_UTC) + random instants (80% in years 1000..=9999, 20% anywhere in chrono's range); formats that write %Y directly against %m are only required to round-trip for years 0..=9999; 12 whole-second instants x the first 3 listed formats at the four units one after the other (the same text at every unit), read back through FromStr; parsing of texts in every listed format around each unit's range limits, \
          with/without explicit format, through parse and FromStr, single-position mutations of 4 texts, malformed explicit formats; chrono's own answers are passed to the model as its chrono parameter. \
          Time::parse: grid of HH:MM:SS[.f] incl. out-of-range fields and leap second, explicit formats, mutations, random valid times. non-trivial = output not null.",
         if thorough { 5 } else { 4 },
